@@ -60,6 +60,10 @@ func main() {
 	}
 	p, ok := profiles[*prof]
 	if !ok {
+		if *prof == "dbfault" || *prof == "dbfaultall" {
+			runDbFault(*seed, *cases, *from, out, *statsPath, *prof == "dbfaultall")
+			return
+		}
 		if runService(*prof, *seed, *cases, *from, out, *statsPath) {
 			return
 		}
